@@ -1010,7 +1010,7 @@ func drawC17CLI(t *rapid.T) C17CLICase {
 		MaxDec:     rapid.SampledFrom([]int{2, 8, 8}).Draw(t, "maxDec"),
 		Unicode:    rapid.IntRange(0, 2).Draw(t, "unicode") > 0,
 	}
-	gen.MaybeLarge(t, &cfg, 40)
+	gen.MaybeLarge(t, &cfg, 4)
 	j := gen.GenJournal(t, cfg)
 	c := C17CLICase{
 		Digits:    rapid.SampledFrom([]int{-1, 0, 1, 2, 2, 3, 4, 5, 6, 7, 8}).Draw(t, "digits"),
